@@ -3,6 +3,27 @@
 HOOK_COMMITS = ["af6de69"]   # filled as hook commits are made in /repo
 
 CHECKS = {
+    "C06": dict(
+        category="model_checking",
+        text=("Stats.tla defines the 14 statistics on genotypes (from the statement), on spectra (as computed) and the published "
+              "estimators in exact rationals; StatsCheck.tla grows call sets site by site and TLC checks spectrum-level = "
+              "genotype-level in every state; all states and large-n estimator cases are replayed through create | stat and the "
+              "Spectrum methods."),
+        design_ref="DESIGN.md section 3 (C06)",
+        note=("Exhaustive over genotype multisets in the bound (quick: up to 3 sites for <=2 individuals, 2 for 3, 1 for 4; thorough "
+              "one more) and the listed n for estimators. Trusted: TLC, Q.class, harness VCF rendering."),
+        technique="TLA+ definitions at genotype and spectrum level cross-checked by TLC, behaviours replayed through the real pipeline",
+    ),
+    "C14": dict(
+        category="model_checking",
+        text=("StatRel.tla: transformation machine (fold0, swap, scale, set-monomorphic) with the claimed invariances as TLC "
+              "invariants over exact statistics, f3/f4 against f2 of marginals; every state replayed on real Spectrum methods and "
+              "on fold | stat of the binary."),
+        design_ref="DESIGN.md section 3 (C14)",
+        note=("Exhaustive over operation sequences (quick 2, thorough 3) from a catalogue of start spectra; not all spectra. "
+              "Trusted: TLC, Q.class."),
+        technique="TLA+ transformation machine with relational invariants, TLC exhaustive, sequence replay on the implementation",
+    ),
     "C13": dict(
         category="model_checking",
         text=("View.tla: the four view operators as once-only actions enabled in the documented order over symbolic spectra; TLC "
